@@ -346,6 +346,9 @@ class EngineBase:
         key = ('keys', id(h))
         if key in st.facts:
             return st.facts[key][1]
+        if h.kt is None:                      # a set / dict nothing typed was ever put into: it is empty
+            from .vals import HList
+            return st.alloc(HList(None, None, z3.IntVal(0)))
         L = fresh_hlist(h.kt, 'keys', st)
         i, j = z3.Int(fresh_name('i')), z3.Int(fresh_name('j'))
         k = z3.Const(fresh_name('k'), sort_of(h.kt))
